@@ -367,3 +367,46 @@ func init() {
 	externals["slices.Contains[[]uint32 uint32]"] = nil
 	delete(externals, "slices.Contains[[]uint32 uint32]")
 }
+
+// regexp: concrete arguments are evaluated by the real regexp package; symbolic
+// arguments give an uninterpreted outcome (fresh match / compile-error
+// variables), logged so that the harness's reference predicate speaks about the
+// very same outcomes.
+func init() {
+	externals["regexp.MatchString"] = func(p *Path, fr *frame, a []Value) Value {
+		pat, sub := a[0].(*Str), a[1].(*Str)
+		ts := p.e.ts
+		if pat.opaque || sub.opaque {
+			panic(engineError("regexp.MatchString on opaque string"))
+		}
+		cp, ok1 := pat.Concrete()
+		cs, ok2 := sub.Concrete()
+		if ok1 && ok2 {
+			m, err := regexpMatchString(cp, cs)
+			p.logs["re"] = append(p.logs["re"], Tuple{pat, sub, ts.Bool(m), ts.Bool(err != nil)})
+			if err != nil {
+				return Tuple{ts.False, p.errorValue(p.e.strOf("regexp: " + err.Error()))}
+			}
+			return Tuple{ts.Bool(m), Iface{}}
+		}
+		m := p.newInput("re.match", BoolSort)
+		e := p.newInput("re.err", BoolSort)
+		p.logs["re"] = append(p.logs["re"], Tuple{pat, sub, m, e})
+		if p.Branch(e) {
+			return Tuple{ts.False, p.errorValue(p.e.strOf("regexp: compile error (stub)"))}
+		}
+		return Tuple{m, Iface{}}
+	}
+	intrinsics["vfMatchCount"] = func(p *Path, fr *frame, a []Value) Value {
+		return p.e.ts.BV(64, uint64(len(p.logs["re"])))
+	}
+	reField := func(k int) extFn {
+		return func(p *Path, fr *frame, a []Value) Value {
+			return p.logs["re"][concInt(a[0])].(Tuple)[k]
+		}
+	}
+	intrinsics["vfMatchExpr"] = reField(0)
+	intrinsics["vfMatchSubject"] = reField(1)
+	intrinsics["vfMatchResult"] = reField(2)
+	intrinsics["vfMatchErr"] = reField(3)
+}
